@@ -150,11 +150,32 @@ impl<T: Into<TagValue>> From<Option<T>> for TagValue {
         }
     }
 }
+/// Writes `s` as a JSON string, with quotes.
+/// <https://datatracker.ietf.org/doc/html/rfc8259#section-7>
+///
+/// # Errors
+/// Returns `Err` when it fails to write to `f`.
+pub fn write_json_string(f: &mut Formatter<'_>, s: &str) -> Result<(), std::fmt::Error> {
+    f.write_str("\"")?;
+    for c in s.chars() {
+        match c {
+            '"' => f.write_str("\\\"")?,
+            '\\' => f.write_str("\\\\")?,
+            '\n' => f.write_str("\\n")?,
+            '\r' => f.write_str("\\r")?,
+            '\t' => f.write_str("\\t")?,
+            c if u32::from(c) < 0x20 => write!(f, "\\u{:04x}", u32::from(c))?,
+            c => write!(f, "{c}")?,
+        }
+    }
+    f.write_str("\"")
+}
+
 impl Display for TagValue {
     fn fmt(&self, f: &mut Formatter<'_>) -> Result<(), std::fmt::Error> {
         match self {
-            TagValue::Str(x) => write!(f, "{x:?}"),
-            TagValue::String(x) => write!(f, "{x:?}"),
+            TagValue::Str(x) => write_json_string(f, x),
+            TagValue::String(x) => write_json_string(f, x),
             TagValue::Bool(x) => Display::fmt(&x, f),
             TagValue::I8(x) => Display::fmt(&x, f),
             TagValue::I16(x) => Display::fmt(&x, f),
@@ -167,6 +188,10 @@ impl Display for TagValue {
             TagValue::U64(x) => Display::fmt(&x, f),
             TagValue::U128(x) => Display::fmt(&x, f),
             TagValue::Usize(x) => Display::fmt(&x, f),
+            // JSON has no NaN or infinity.
+            TagValue::Float(x) if x.ends_with("NaN") || x.ends_with("inf") => {
+                write_json_string(f, x)
+            }
             TagValue::Float(x) => Display::fmt(&x, f),
             TagValue::Null => write!(f, "null"),
         }
